@@ -127,6 +127,26 @@ def run(tier, seed):
             exp = "OK " + " ".join([fw.ws("ECC"), fw.ws(ALG[na]), abits, fw.wb(ap), "ECC", fw.ws(ALG[sym]), fw.ws(ALG[sch]), fw.ws(CURVE[cv]), fw.ws(ALG[kdf]), fw.wb(x + y)])
         both("pubarea", b, impl.parse_pub_area, exp, kind)
     chk.sample({"pubarea_hex": b.hex()[:120], "expected": exp[:140]})
+    # ---- a decoded structure is a value: parsing other structures later does not change it ----
+    from webauthn.helpers.tpm.parse_pub_area import parse_pub_area as ppa
+    from webauthn.helpers.tpm.parse_cert_info import parse_cert_info as pci
+    def mk_pa(kind, attrs):
+        if kind == "RSA":
+            return struct.pack(">HHI", 0x0001, 0x000B, attrs) + struct.pack(">H", 0) + struct.pack(">HH", 0x0010, 0x0014) + b"\x08\x00" + bytes(4) + struct.pack(">H", 8) + b"modulus!"
+        return struct.pack(">HHI", 0x0023, 0x000C, attrs) + struct.pack(">H", 0) + struct.pack(">HHHH", 0x0010, 0x0018, 0x0003, 0x0010) + struct.pack(">H", 2) + b"xx" + struct.pack(">H", 2) + b"yy"
+    def show_pa(o):
+        a = o.object_attributes
+        return (o.type.name, o.name_alg.name, tuple(bool(getattr(a, n)) for n in impl.ATTR_NAMES), bytes(o.auth_policy), bytes(o.unique.value))
+    kept = []
+    for kind, attrs in (("RSA", 0x00050072), ("ECC", 0x00040460), ("RSA", 0xFFFFFFFF), ("ECC", 0x00000000), ("RSA", 0x00030472)):
+        o = ppa(mk_pa(kind, attrs))
+        kept.append((kind, attrs, o, show_pa(o)))
+        for (k0, a0, o0, shown0) in kept:
+            chk.evals += 1
+            now_shown = show_pa(o0)
+            if now_shown != shown0:
+                chk.violation("an earlier parse_pub_area result changed after a later call", "pubarea-result-not-a-value",
+                              {"entry": "parse_pub_area", "first_input": mk_pa(k0, a0).hex(), "later_input": mk_pa(kind, attrs).hex(), "first_result_then": repr(shown0), "first_result_now": repr(now_shown)})
     # ---- other key types, truncations, garbage: outcome class only ----
     for ty in ALG:
         if ty not in (0x0001, 0x0023):
